@@ -128,7 +128,7 @@ def run(ctx, w):
         rz = [cs for cs in E.call_sites(m) if cs.callee.endswith("Vec::<T, A>::resize")]
         ok = len(rz) == 1 and mb.every_path_to_return_hits((0, 0), {rz[0].point}, include_start=True) and WD.strip_names(MT.operand(rz[0].term["args"][1], rz[0].point)) == ("load", ("arg2",))
         ctx.check(ok, "R5", m, "%s does not set the dirty set's length to its argument on every path (a stale longer set yields changed-line indices >= rows)" % m, loc=w.fn_loc(m), sample={"fn": m})
-    ctx.floor("R5", 4, "dirty-set sizing sites")
+    ctx.floor("R5", 3, "dirty-set sizing sites")
 
     api_rules(ctx, w, S, R)
     length_rules(ctx, w, S, R)
